@@ -32,7 +32,7 @@ ASSUMPTIONS = ["one corruption at a time", "archives of 3 versions in 2 packages
 SPECS = [TaskSpec("e", "run_experiment", []), TaskSpec("f", "run_experiment", [], pkg="p")]
 ARCH_ROWS = [("//:e", 5), ("//p:f", 6), ("//:e", 9)]        # (recorded in this order: the rows of one package are not adjacent)
 CORRUPTIONS = ("none", "index-removed", "directory-removed", "truncated", "version-already-recorded", "destination-exists", "member-header-damaged")
-PRIORS = ("empty", "other-versions")
+PRIORS = ("empty", "other-versions", "format-1-index")
 _ARCH = {}
 _L = {}
 QUICK_ONLY = ("cli/restore.py", "execution/version_index.py")
@@ -99,6 +99,21 @@ def setup(prior, stale, corruption):
         # (one of the recorded versions belongs to a task whose package is called like restore's staging directory)
         for ident, ts in (("//:e", 3), ("//p:f", 20)) + ((("//archive-tmp:g", 30),) if not stale else ()):
             fill(proj.add_version(ident, ts, files={}), "prior %s %d" % (ident, ts))
+    elif prior == "format-1-index":
+        # the project was last used with Conductor <= 0.4.0: its index is still in format 1 and is upgraded by this command
+        import sqlite3
+        conn = sqlite3.connect(str(proj.out / "version_index.sqlite"))
+        conn.execute("CREATE TABLE version_index (task_identifier TEXT NOT NULL, timestamp INTEGER NOT NULL, git_commit TEXT NOT NULL, "
+                     "PRIMARY KEY (task_identifier, timestamp))")
+        conn.execute("PRAGMA user_version = 1")
+        for ident, ts in (("//:e", 3), ("//p:f", 20)):
+            conn.execute("INSERT INTO version_index VALUES (?, ?, ?)", (ident, ts, "unknown"))
+            pkg_, nm_ = ident[2:].rsplit(":", 1)
+            d_ = proj.out / pkg_ / ("%s.task.%d" % (nm_, ts))
+            d_.mkdir(parents=True)
+            fill(d_, "prior %s %d" % (ident, ts))
+        conn.commit()
+        conn.close()
     else:
         from conductor.execution.version_index import VersionIndex
         VersionIndex.create_or_load(proj.out / "version_index.sqlite")
@@ -127,8 +142,10 @@ def make(only):
         prior = PRIORS[g.choose("prior", len(PRIORS))]
         stale = g.flag("stale_staging")
         corruption = CORRUPTIONS[g.choose("corruption", len(CORRUPTIONS))]
-        kill = g.flag("kill")
-        D = "prior=%s stale_staging=%s corruption=%s" % (prior, stale, corruption)
+        kill = g.flag("kill") if prior != "format-1-index" else False       # (a kill during the upgrade of the index itself is not modelled)
+        # cond's own stdout/stderr may be unable to encode non-ASCII characters (PYTHONIOENCODING=ascii, legacy locales)
+        ascii_io = g.flag("stdout_cannot_encode_non_ascii") if (corruption == "none" and not kill) else False
+        D = "prior=%s stale_staging=%s corruption=%s%s" % (prior, stale, corruption, " ascii-only stdout" if ascii_io else "")
         k = None
         if kill:
             cfg = (prior, stale, corruption, only)
@@ -155,7 +172,11 @@ def make(only):
                 dirs_before[rel] = hrun.tree_digest(proj.out / rel)
             leftover_before = hrun.tree_digest(proj.out / "e.task.5") if corruption == "destination-exists" else None
             if k is None:
-                res = hrun.invoke_argv(["restore", arch], str(proj.root), fakeos.Kernel(fakeos.Sched()))
+                hrun.ASCII_ONLY_STDIO = ascii_io
+                try:
+                    res = hrun.invoke_argv(["restore", arch], str(proj.root), fakeos.Kernel(fakeos.Sched()))
+                finally:
+                    hrun.ASCII_ONLY_STDIO = False
                 status = res.status
                 where = None
             else:
